@@ -159,6 +159,7 @@ const VC &task_clock(int t);
 // harness atomics: always fresh, carry exactly the declared edges
 uint64_t user_atomic_load(void *p, int size, bool acquire);
 void user_atomic_store(void *p, int size, uint64_t v, bool release);
+uint64_t user_atomic_exchange(void *p, int size, uint64_t v); // acq_rel
 
 // tracked-memory helpers
 void *obj_alloc(size_t n, size_t align = 16); // bump allocation in the object zone (garbage filled)
